@@ -262,3 +262,91 @@ def validate(tmp, out_files, tag, ifis=("vf0",), consts=None, lines_per_batch=60
 def clause_props(clause):
     ids = set(re.findall(r"c(\d\d)", clause))
     return {"C" + i for i in ids}
+
+
+# ------------------------------------------------------------ conformance ----
+def conf_scenarios(out_files):
+    """Recorded scenarios in the conformance vocabulary (bodies and connection ids normalised)."""
+    scen = []
+    for f in out_files:
+        cur = None
+        body0 = None
+        for e in advtrace.compact(vf.read_ndjson(f), "vf0", conf=True):
+            if e["ev"] == "reset":
+                if cur:
+                    scen.append(cur)
+                cur = [e]
+                body0 = None
+                kmap = {}
+            elif cur is not None:
+                if "k" in e and e["k"] != 0:
+                    # connection ids are global to a scenario (two interfaces): the model numbers this interface's from 1
+                    e["k"] = kmap.setdefault(e["k"], len(kmap) + 1)
+                if "body" in e:
+                    # the model knows one body ("b"): rename the scenario's first digest to it
+                    if body0 is None:
+                        body0 = e["body"]
+                    e["body"] = "b" if e["body"] == body0 else "b-changed"
+                cur.append(e)
+        if cur:
+            scen.append(cur)
+
+    return scen
+
+
+def conformance(tmp, out_files, tag, max_scen=400):
+    """Hidden-step conformance of single-session traces with Advertiser.tla
+    (spec/AdvConf.tla). Returns (n_checked, deviations [ids], tlc stats)."""
+    scen = conf_scenarios(out_files)
+
+    def eligible(evs):
+        r = evs[0]
+        if r.get("mode") != "adv":
+            return False
+        if sum(1 for e in evs if e["ev"] == "dial") != 1 or any(e["ev"] == "dial" and e["res"] != "ok" for e in evs):
+            return False
+        if any(e["ev"] in ("leak", "hang", "panic") for e in evs):
+            return False
+        if any(e["ev"] in ("hold", "release") and e.get("gate") != "w" for e in evs):
+            return False
+        if sum(1 for e in evs if e["ev"] == "arrive") > 6:
+            return False
+        return True
+    groups = {}
+    for evs in scen:
+        if not eligible(evs):
+            continue
+        r = evs[0]
+        key = (r["unicast"], r["cfglife"], r["min"], r["max"])
+        groups.setdefault(key, []).append(evs)
+    explained, deviations, stats = set(), [], []
+    total = 0
+    for key, lst in sorted(groups.items(), key=lambda kv: str(kv[0])):
+        lst = lst[:max_scen]
+        total += len(lst)
+        unicast, cfglife, mn, mx = key
+        rs = lambda x: ((x + 500) // 1000) * 1000
+        consts = dict(MinDelay=3000, MaxRADelay=500, InitCap=16000, InitCount=3, MinIv=rs(mn), MaxIv=rs(mx), ChanCap=16, Retries=5,
+                      BackoffUnit=50, UnicastOnly="TRUE" if unicast else "FALSE", CfgLife=cfglife, Hosts="{}", Kinds="{}", MaxIn=0, DebugK=0,
+                      MaxT=0, MaxFlips=0, MaxHolds=0, WriteFaults="TRUE", LinkFaults="TRUE", AllowCancel="TRUE", Sec=1000, MaxQueries=0)
+        for b in range(0, len(lst), 100):
+            part = lst[b:b + 100]
+            wd = vf.mktmp("vf-conf-")
+            rows = [e for evs in part for e in evs]
+            vf.write_ndjson(os.path.join(wd, "trace.ndjson"), rows)
+            cfg = os.path.join(wd, "AdvConf.cfg")
+            with open(cfg, "w") as f:
+                f.write("SPECIFICATION CSpec\nCONSTANTS\n")
+                for k, v in consts.items():
+                    f.write("  %s = %s\n" % (k, v))
+                f.write("INVARIANT Explained\nCHECK_DEADLOCK FALSE\n")
+            r = vf.tlc("AdvConf", cfg, workdir=wd, timeout=900, heap="6g")
+            if not r["ok"]:
+                raise vf.Infra("conformance run failed: %s" % r["violation"])
+            stats.append({"group": str(key), "scenarios": len(part), "states": r["states"], "wall_s": round(r["wall_s"], 1)})
+            got = {p["explained"] for p in r["printed"] if "explained" in p}
+            explained |= got
+            for evs in part:
+                if evs[0]["id"] not in got:
+                    deviations.append(evs[0]["id"])
+    return total, deviations, stats
